@@ -42,6 +42,12 @@ const (
 	opCloseCont  = 0x19 // host calls mod.CloseWithExitCode and returns; the body completes
 	opCloseTrap  = 0x1a // same, then the body traps (unreachable)
 	opCloseNoRet = 0x1b // host closes the module and panics with the ExitError itself
+	// success terminal: the host function reads word 0 of the CALLING module's memory (the log
+	// length), the guest logs what it got
+	opPeek = 0x1c
+	// every host-calling operation 0x10..0x1f also exists as op|opViaTable: the imported host
+	// function is then reached with call_indirect through its funcref in the table
+	opViaTable = 0x20 // 0x30..0x3f
 	// nesting
 	opNestLocal    = 0x20
 	opNestPeer     = 0x21
@@ -49,8 +55,9 @@ const (
 	// unbounded recursion: opRec + frame kind
 	opRec      = 0x28 // .. 0x2b
 	nRecKinds  = 4
-	opCallback = 0x40 // | target<<1 | mode   (target 0..2 = instance, 3 = the calling module itself; mode 0 = re-panic, 1 = swallow)
-	opCbMask   = 0xf8
+	opCallback = 0x40 // | viaTable<<3 | target<<1 | mode   (target 0..2 = instance, 3 = the calling module itself; mode 0 = re-panic, 1 = swallow)
+	opCbMask   = 0xf0
+	opCbTable  = 0x08
 )
 
 var trapText = map[byte]string{
@@ -94,6 +101,7 @@ func buildGuest(peer string, start int) []byte {
 	hclose := m.ImportFunc("env", "hclose", []byte{e.I32, e.I32}, nil)
 	cb := m.ImportFunc("env", "cb", []byte{e.I32, e.I32, e.I64}, []byte{e.I32})
 	sscript := m.ImportFunc("env", "startscript", nil, []byte{e.I64})
+	peek := m.ImportFunc("env", "peek", nil, []byte{e.I32})
 	procExit := m.ImportFunc("wasi_snapshot_preview1", "proc_exit", []byte{e.I32}, nil)
 	peerRun := uint32(0)
 	if peer != "" {
@@ -113,9 +121,15 @@ func buildGuest(peer string, start int) []byte {
 		{Type: e.I64, Mut: true, Init: e.NewB().I64Const(0).Bytes()},
 	}
 	m.Mems = [][]byte{e.Limits(1, 1, false)}
-	m.Tables = [][]byte{e.TableType(e.FuncRef, 4, 4)}
-	// slot 0 = run, slot 1 = null, slot 2 = a ()->() function, slot 3 = run
-	m.Elems = [][]byte{e.ActiveElemFuncs(0, []uint32{fRun}), e.ActiveElemFuncs(2, []uint32{fVoid, fRun})}
+	m.Tables = [][]byte{e.TableType(e.FuncRef, 10, 10)}
+	// slot 0 = run, slot 1 = null, slot 2 = a ()->() function, slot 3 = run,
+	// slots 4..8 = the imported HOST functions hp, hclose, cb, proc_exit, peek, slot 9 = null
+	const slotHp, slotHclose, slotCb, slotProcExit, slotPeek = 4, 5, 6, 7, 8
+	m.Elems = [][]byte{e.ActiveElemFuncs(0, []uint32{fRun}), e.ActiveElemFuncs(2, []uint32{fVoid, fRun, hp, hclose, cb, procExit, peek})}
+	tHp := m.AddType([]byte{e.I32}, nil)
+	tHclose := m.AddType([]byte{e.I32, e.I32}, nil)
+	tCb := m.AddType([]byte{e.I32, e.I32, e.I64}, []byte{e.I32})
+	tPeek := m.AddType(nil, []byte{e.I32})
 
 	// log(v i32): mem[64 + 4*(n % cap)] = v; n++
 	{
@@ -175,19 +189,40 @@ func buildGuest(peer string, start int) []byte {
 			b.LocalGet(lZero).I32Const(65532).Raw(e.OpI32Add).I64Const(-1).Mem(e.OpI64Store, 0, 0).I32Const(0).Return()
 		})
 		when(opAtomicRMWOOB, func() { b.LocalGet(lZero).I32Const(65536).Raw(e.OpI32Add).I32Const(1).FE(0x1e, 2, 0).Return() }) // i32.atomic.rmw.add
-		for k := 0; k < nPanicKinds; k++ {
-			kk := k
-			when(byte(opHostPanic+k), func() { b.I32Const(int32(kk)).Call(hp); dead() })
+		for _, via := range []bool{false, true} {
+			via := via
+			off := byte(0)
+			if via {
+				off = opViaTable
+			}
+			// host calls fn directly or through its table slot
+			host := func(fn uint32, slot int32, typ uint32) {
+				if via {
+					b.LocalGet(lZero).I32Const(slot).Raw(e.OpI32Add).CallIndirect(typ, 0)
+				} else {
+					b.Call(fn)
+				}
+			}
+			for k := 0; k < nPanicKinds; k++ {
+				kk := k
+				when(byte(opHostPanic+k)+off, func() { b.I32Const(int32(kk)); host(hp, slotHp, tHp); dead() })
+			}
+			when(opProcExit+off, func() { b.LocalGet(lCode); host(procExit, slotProcExit, tHp); dead() })
+			when(opCloseCont+off, func() {
+				b.LocalGet(lCode).I32Const(0)
+				host(hclose, slotHclose, tHclose)
+				addCnt(10)
+				b.I32Const(-0x34000000).Call(fLog) // 0xCC000000
+				b.GlobalGet(gCnt).Raw(e.OpI32WrapI64).Return()
+			})
+			when(opCloseTrap+off, func() { b.LocalGet(lCode).I32Const(0); host(hclose, slotHclose, tHclose); b.Unreachable() })
+			when(opCloseNoRet+off, func() { b.LocalGet(lCode).I32Const(1); host(hclose, slotHclose, tHclose); dead() })
+			when(opPeek+off, func() {
+				host(peek, slotPeek, tPeek)
+				b.Call(fLog)
+				b.GlobalGet(gCnt).Raw(e.OpI32WrapI64).Return()
+			})
 		}
-		when(opProcExit, func() { b.LocalGet(lCode).Call(procExit); dead() })
-		when(opCloseCont, func() {
-			b.LocalGet(lCode).I32Const(0).Call(hclose)
-			addCnt(10)
-			b.I32Const(-0x34000000).Call(fLog) // 0xCC000000
-			b.GlobalGet(gCnt).Raw(e.OpI32WrapI64).Return()
-		})
-		when(opCloseTrap, func() { b.LocalGet(lCode).I32Const(0).Call(hclose).Unreachable() })
-		when(opCloseNoRet, func() { b.LocalGet(lCode).I32Const(1).Call(hclose); dead() })
 		nest := func(call func()) {
 			b.GlobalGet(gCnt).Raw(e.OpI32WrapI64).LocalSet(lPre)
 			call()
@@ -208,14 +243,26 @@ func buildGuest(peer string, start int) []byte {
 			b.Call(fRec20)
 			dead()
 		})
-		// callback: (op & 0xf8) == 0x40
-		b.LocalGet(lOp).I32Const(opCbMask).Raw(e.OpI32And).I32Const(opCallback).Raw(e.OpI32Eq).If()
-		nest(func() {
-			b.LocalGet(lOp).I32Const(1).Raw(e.OpI32ShrU).I32Const(3).Raw(e.OpI32And) // target
-			b.LocalGet(lOp).I32Const(1).Raw(e.OpI32And)                              // mode
-			b.LocalGet(lRest).Call(cb)
-		})
-		b.End()
+		// callback: (op & 0xf0) == 0x40; bit 3 = through the table
+		for _, via := range []bool{false, true} {
+			via := via
+			want := int32(opCallback)
+			if via {
+				want |= opCbTable
+			}
+			b.LocalGet(lOp).I32Const(opCbMask | opCbTable).Raw(e.OpI32And).I32Const(want).Raw(e.OpI32Eq).If()
+			nest(func() {
+				b.LocalGet(lOp).I32Const(1).Raw(e.OpI32ShrU).I32Const(3).Raw(e.OpI32And) // target
+				b.LocalGet(lOp).I32Const(1).Raw(e.OpI32And)                              // mode
+				b.LocalGet(lRest)
+				if via {
+					b.LocalGet(lZero).I32Const(slotCb).Raw(e.OpI32Add).CallIndirect(tCb, 0)
+				} else {
+					b.Call(cb)
+				}
+			})
+			b.End()
+		}
 		// leaf / unknown op
 		b.LocalGet(lNested).Raw(e.OpI32Eqz).If()
 		b.GlobalGet(gCnt).Raw(e.OpI32WrapI64).Return()
